@@ -94,13 +94,29 @@ structure TerminalGate (W : Type) where
   exec : Node W → Nat → Frame → Script W
   refuse : Node W → Nat → Frame → SwScript W
 
+/-- the frame is for the terminal port -/
+def isTermPort (termPort : Nat) (f : Frame) : Bool :=
+  match f.pkt.ports with
+  | some (_, d) => d == termPort
+  | none => false
+
 /-- a router / firewall with a Terminal: frames for the terminal port go to it, the rest as in `rtrStd` -/
 def rtrWithTerminal (hops : List Ip) (x : RtrOpaque W) (t : TerminalGate W) (termPort : Nat) : Soft W :=
   { rtrStd hops x with
     session := fun s p f =>
-      if !isArpExempt f && (match f.pkt.ports with | some (_, d) => d == termPort | none => false) then
+      if !isArpExempt f && isTermPort termPort f then
         (if t.authorised s f then t.exec s p f else stampSends (replyStamp hops f) (liftSw s (t.refuse s p f)))
       else (rtrStd hops x).session s p f }
+
+/-- the same device seen by someone who holds no live session: the Terminal's refusal is just one more own service -/
+def withRefuse (x : RtrOpaque W) (t : TerminalGate W) (termPort : Nat) : RtrOpaque W :=
+  { x with own := fun s p f =>
+      if isTermPort termPort f then t.refuse s p f else x.own s p f }
+
+/-- `Terminal.receive`: where `self.execute(command)` (the only caller of `apply_request` in the software layer) sits -/
+def terminalExecGuards : List String :=
+  ["execute:1-call-site", "branch:payload.transport_message == SSHTransportMessage.SSH_MSG_SERVICE_REQUEST",
+   "guard:valid_connection = self._check_client_connection(payload.connection_uuid)"]
 
 /-! ### "denies every packet addressed to `a`" -/
 
